@@ -40,11 +40,12 @@ struct Case {
     mode: Mode,
     /// 0 '.', 1 the top-level directory containing the source, 2 the source by output name
     input_kind: u8,
+    recorder_relative: bool,
 }
 
 impl Case {
     fn json(&self) -> Value {
-        json!({"depth": self.depth, "cwd_kind": self.cwd_kind, "via_cli": self.via_cli, "recorder": self.recorder, "extra_args": self.extra_args, "cmd_lines": self.cmd_lines, "exit": self.exit, "threads": self.threads, "with_includer": self.with_includer, "mode": crate::run::mode_name(&self.mode), "input_kind": self.input_kind})
+        json!({"depth": self.depth, "cwd_kind": self.cwd_kind, "via_cli": self.via_cli, "recorder": self.recorder, "extra_args": self.extra_args, "cmd_lines": self.cmd_lines, "exit": self.exit, "threads": self.threads, "with_includer": self.with_includer, "mode": crate::run::mode_name(&self.mode), "input_kind": self.input_kind, "recorder_relative": self.recorder_relative})
     }
     fn from(v: &Value) -> Self {
         let strs = |k: &str| v[k].as_array().map(|a| a.iter().filter_map(|x| x.as_str().map(String::from)).collect()).unwrap_or_default();
@@ -60,6 +61,7 @@ impl Case {
             with_includer: v["with_includer"].as_bool().unwrap_or(false),
             mode: crate::run::mode_from(v["mode"].as_str().unwrap_or("build")),
             input_kind: v["input_kind"].as_u64().unwrap_or(0) as u8,
+            recorder_relative: v["recorder_relative"].as_bool().unwrap_or(false),
         }
     }
 }
@@ -124,7 +126,18 @@ fn check(ctx: &mut Ctx, c: &Case) {
     let rec_path = parent.join("rec.sh");
     std::fs::write(&rec_path, RECORDER).unwrap();
     let _ = std::process::Command::new("chmod").arg("+x").arg(&rec_path).status();
-    let shell = if c.recorder { format!("{} {}", rec_path.display(), c.extra_args.join(" ")).trim().to_string() } else { String::new() };
+    // the shell may be configured by a path relative to the process working directory
+    let rec_spelling = if c.recorder_relative {
+        match (c.via_cli, c.cwd_kind) {
+            (true, _) | (false, 0) => "../rec.sh".to_string(),
+            (false, 1) => "../../rec.sh".to_string(),
+            (false, 3) => "./rec.sh".to_string(),
+            _ => rec_path.display().to_string(),
+        }
+    } else {
+        rec_path.display().to_string()
+    };
+    let shell = if c.recorder { format!("{} {}", rec_spelling, c.extra_args.join(" ")).trim().to_string() } else { String::new() };
     let (cwd, base): (PathBuf, PathBuf) = match c.cwd_kind {
         1 => (root.join("a"), root.clone()),
         2 => (PathBuf::from("/"), root.clone()),
@@ -363,6 +376,7 @@ fn run(ctx: &mut Ctx) {
             cmd_lines: cmds[r.gen_range(0..cmds.len())].clone(),
             exit: ["0", "0", "0", "0", "1", "2", "255", "signal"][r.gen_range(0..8)].to_string(),
             input_kind: r.gen_range(0..3),
+            recorder_relative: r.gen_bool(0.5),
             threads: [1, 2, 4][r.gen_range(0..3)],
             with_includer: r.gen_bool(0.3),
             mode: if r.gen_bool(0.2) { Mode::InMemoryBuild } else { Mode::Build },
